@@ -126,6 +126,7 @@ def gen_history(r, states, nops, domain):
             # a walk consumed step by step with other calls in between - the expiry loop
             # `for key, value, is_set in store.iterate(): if expired: store.del_key(key)`
             plan = []
+            lv0 = set(lv)
             for step in range(r.randint(1, len(lv) + 1)):
                 for _ in range(r.choice([0, 1, 1, 2])):
                     if not lv:
@@ -143,7 +144,20 @@ def gen_history(r, states, nops, domain):
                         i = r.choice(dom)
                         lv.add(i)
                         plan.append([step, 'add_key', i, None])
-            ops.append([s, 'walk', None, plan])
+            if r.random() < 0.4:
+                # abandoned after a few steps (next(it) peek, `for ... break`, any(...)); a complete iterate() follows at once
+                short = [p for p in plan if p[0] <= 1]
+                lv.clear()
+                lv.update(lv0)                  # (only the calls of the shortened plan happen)
+                for _, sub, j, _a in short:
+                    if sub == 'add_key':
+                        lv.add(j)
+                    elif sub == 'del_key':
+                        lv.discard(j)
+                ops.append([s, 'walk', None, {'abandon_after': r.randint(0, 3), 'plan': short}])
+                ops.append([s, 'iterate', None, None])
+            else:
+                ops.append([s, 'walk', None, plan])
         elif op == 'iterate':
             ops.append([s, 'iterate', None, None])
         elif op == 'add_map':
@@ -173,7 +187,7 @@ def valid_history(states, ops):
         elif op == 'iterate':
             pass
         elif op == 'walk':
-            for _, sub, j, _a in arg:
+            for _, sub, j, _a in (arg['plan'] if isinstance(arg, dict) else arg):
                 if sub == 'add_key':
                     live[s].add(j)
                     mapped[s][j] = []
@@ -224,7 +238,7 @@ class C14(Check):
                    'del_map is not part of the property (the quantifier does not list it) and is only exercised through group_by in (b)']
     ANCHORS = ['rxsci/state/memory_store.py', 'rxsci/state/store.py']
     REQUIRED_TAGS = ['dtype=int', 'dtype=uint', 'dtype=float', 'dtype=bool', 'dtype=obj', 'dtype=mapper', 'default', 'no-default',
-                     'direct', 'manager', 'sparse', 'descending', 'pipeline', 'wide', 'far', 'stepwise-walk', 'type-names-built-at-run-time']
+                     'direct', 'manager', 'sparse', 'descending', 'pipeline', 'wide', 'far', 'stepwise-walk', 'abandoned-walk', 'type-names-built-at-run-time']
     REQUIRED_OBSERVED = ['walk_steps', 'untouched_slots_checked_in_walks', 'store.add_key', 'store.set', 'store.get', 'store.del_key', 'store.iterate',
                          'store.add_map', 'store.get_map', 'store.iterate_map', 'slot_rereads']
 
@@ -377,6 +391,10 @@ class C14(Check):
         while it runs is not specified and not judged.)"""
         from rxsci.state.memory_store import MemoryStore
         out.tags.append('stepwise-walk')
+        abandon = None
+        if isinstance(plan, dict):
+            abandon, plan = plan['abandon_after'], plan['plan']
+            out.tags.append('abandoned-walk')
         start = {i: (v[0], v[1]) for i, v in st.m.items()}
         ever_live = set(start)
         touched = set()
@@ -400,6 +418,9 @@ class C14(Check):
                     call(s, 'set', key, decode_val(a))
             if done:
                 break
+            if abandon is not None and step >= abandon:
+                done = True          # the generator is dropped here, unfinished
+                continue
             try:
                 got.append(next(it))
             except StopIteration:
@@ -416,6 +437,8 @@ class C14(Check):
         if ghost:
             out.fail('walk-enumerates-a-slot-that-was-never-live', ghosts=ghost, plan=plan)
             return True
+        if abandon is not None:
+            return False        # nothing to judge in the partial walk itself: the complete iterate() that follows is checked by the shadow store
         for i, (is_set, v) in sorted(start.items()):
             if i in touched:
                 continue
